@@ -5,7 +5,7 @@
    text that consists of one (possibly negated) numeric literal; an exact decimal -> binary64 conversion
    (round to nearest, ties to even, in Z arithmetic) as the specification of parse_float_lossy; and the decimal
    integer writer.  Characters are code points (N).  No proofs in this file. *)
-From Coq Require Import List NArith ZArith Bool String Ascii.
+From Coq Require Import List NArith ZArith Bool String Ascii Uint63.
 Import ListNotations.
 Open Scope N_scope.
 
@@ -230,7 +230,7 @@ Definition number_token (s : list N) : ntok :=
   match s with
   | [] => TErr
   | c0 :: s0 =>
-    match int_loop (S (length s0)) [c0] s0 with
+    match int_loop (S (List.length s0)) [c0] s0 with
     | IPartial tok => TPartial tok
     | IErr => TErr
     | IStop tok rest =>
@@ -261,9 +261,8 @@ Definition number_token (s : list N) : ntok :=
 (* ---------------------------------------------------------------- exact decimal -> binary64 *)
 Open Scope Z_scope.
 
-Definition round_div (n d : Z) : Z :=
-  let q := n / d in
-  let r := n mod d in
+(* round to nearest, ties to even, from quotient q and remainder r of a division by d *)
+Definition round_qr (q r d : Z) : Z :=
   match 2 * r ?= d with
   | Lt => q
   | Gt => q + 1
@@ -272,13 +271,26 @@ Definition round_div (n d : Z) : Z :=
 
 (* the value num/den divided by 2^sh, as a fraction *)
 Definition scaled (num den sh : Z) : Z * Z :=
-  if 0 <=? sh then (num, den * 2 ^ sh) else (num * 2 ^ (- sh), den).
+  if 0 <=? sh then (num, Z.shiftl den sh) else (Z.shiftl num (- sh), den).
+
+(* restoring division producing at most i quotient bits (Z.div is very slow under vm_compute on 1000-bit operands);
+   its result is not trusted: try_sh checks 0 <= n - q*d < d *)
+Fixpoint fdiv_loop (i : nat) (n d q : Z) : Z :=
+  match i with
+  | O => q
+  | S j =>
+    let dj := Z.shiftl d (Z.of_nat j) in
+    if dj <=? n then fdiv_loop j (n - dj) d (q + Z.shiftl 1 (Z.of_nat j)) else fdiv_loop j n d q
+  end.
+Definition fdiv (n d : Z) : Z := fdiv_loop 56 n d 0.
 
 Definition try_sh (num den sh : Z) : option (Z * Z) :=
   let '(n, d) := scaled num den sh in
-  let q := n / d in
-  if ((2 ^ 52 <=? q) && (q <? 2 ^ 53)) || ((sh =? -1074) && (q <? 2 ^ 52))
-  then Some (round_div n d, sh) else None.
+  let q := fdiv n d in
+  let r := n - q * d in
+  if (0 <=? r) && (r <? d) &&
+     (((2 ^ 52 <=? q) && (q <? 2 ^ 53)) || ((sh =? -1074) && (0 <=? q) && (q <? 2 ^ 52)))
+  then Some (round_qr q r d, sh) else None.
 
 Definition dec_num (m e : Z) : Z := if 0 <=? e then m * 10 ^ e else m.
 Definition dec_den (e : Z) : Z := if 0 <=? e then 1 else 10 ^ (- e).
@@ -324,8 +336,8 @@ Definition parse_float (tok : list N) : fval :=
   | dot :: r2 =>
     let '(fp, r3) := span is_digit r2 in
     let m := Z.of_N (dec (ip ++ fp)) in
-    let nd := Z.of_nat (length (ip ++ fp)) in
-    let fl := Z.of_nat (length fp) in
+    let nd := Z.of_nat (List.length (ip ++ fp)) in
+    let fl := Z.of_nat (List.length fp) in
     match r3 with
     | [] => dec_to_float m (- fl) nd
     | _ :: r4 =>
@@ -485,7 +497,7 @@ Definition mres_eqb (a b : mres) : bool :=
   end.
 
 Definition list_eqb (a b : list N) : bool :=
-  (Nat.eqb (length a) (length b)) && forallb (fun p => N.eqb (fst p) (snd p)) (combine a b).
+  (Nat.eqb (List.length a) (List.length b)) && forallb (fun p => N.eqb (fst p) (snd p)) (combine a b).
 
 (* the entry points agree: if the reader takes s ++ " ." as the number n and the numeric token ends exactly
    where s ends, number_chars(s) is n; if the reader does not obtain a number from s ++ " .", number_chars(s)
@@ -503,7 +515,16 @@ Definition corr (s : list N) (o1 o2 o3 o4 : obs) : bool :=
   nc_ok (number_chars_model s) o1 && nc_ok (number_chars_model s) o2 &&
   rd_ok (read_model (s ++ [32%N; 46%N])) o3 && rd_ok (read_model (s ++ [46%N])) o4.
 
-Definition chk (s : list N) (o1 o2 o3 o4 : obs) : bool := corr s o1 o2 o3 o4 && agree s.
+(* corr && agree, sharing the evaluations *)
+Definition chk (s : list N) (o1 o2 o3 o4 : obs) : bool :=
+  let m := number_chars_model s in
+  let r := read_model_rest (s ++ [32%N; 46%N]) in
+  nc_ok m o1 && nc_ok m o2 && rd_ok (fst r) o3 && rd_ok (read_model (s ++ [46%N])) o4 &&
+  match r with
+  | (MNum n, rest) => if list_eqb rest [32%N; 46%N] then mres_eqb m (MNum n) else true
+  | (MNotNum, _) => match m with MNum _ => false | _ => true end
+  | _ => true
+  end.
 
 (* inputs and observations arrive as strings (Coq parses numeric literals slowly): a spelling either as its
    ASCII text (cs) or as hexadecimal code points separated by single spaces (hx); integers in decimal, float
@@ -538,3 +559,98 @@ Definition float_text_ok (t : list N) (neg : bool) (bits : Z) : bool :=
 
 Definition int_text_ok (t : list N) (z : Z) : bool :=
   list_eqb t (write_int z) && mres_eqb (number_chars_model t) (MNum (NInt z)).
+
+(* ---------------------------------------------------------------- packed cases
+   Coq interprets numeric and string literals slowly except primitive 63-bit integers, so the correspondence
+   cases arrive as lists of primitive integers:
+     spelling  = n, then ceil(n/3) integers each holding three 21-bit code points (first in the low bits);
+     obs       = 0 (syntax error) | 1 (non-number) | 2 (other) | 3 sign k limb_0 .. limb_(k-1) (integer, 60-bit limbs,
+                 little endian) | 4 sign bits (float; bits without the sign bit) | 5 (same as the previous observation) *)
+Definition zi (x : int) : Z := Uint63.to_Z x.
+
+Fixpoint unpack (n : nat) (l : list int) {struct n} : list N * list int :=
+  match n with
+  | O => ([], l)
+  | S O => match l with x :: r => ([Z.to_N (Z.land (zi x) 2097151)], r) | [] => ([], []) end
+  | S (S O) => match l with
+               | x :: r => ([Z.to_N (Z.land (zi x) 2097151); Z.to_N (Z.land (Z.shiftr (zi x) 21) 2097151)], r)
+               | [] => ([], []) end
+  | S (S (S m)) =>
+    match l with
+    | x :: r => let '(cs', r') := unpack m r in
+                (Z.to_N (Z.land (zi x) 2097151) :: Z.to_N (Z.land (Z.shiftr (zi x) 21) 2097151)
+                 :: Z.to_N (Z.shiftr (zi x) 42) :: cs', r')
+    | [] => ([], [])
+    end
+  end.
+
+Definition take_spelling (l : list int) : list N * list int :=
+  match l with
+  | n :: r => unpack (Z.to_nat (zi n)) r
+  | [] => ([], [])
+  end.
+
+Fixpoint take_limbs (k : nat) (l : list int) : Z * list int :=
+  match k with
+  | O => (0, l)
+  | S k' => match l with
+            | x :: r => let '(v, r') := take_limbs k' r in (zi x + v * 2 ^ 60, r')
+            | [] => (0, [])
+            end
+  end.
+
+Definition is0 (x : int) : bool := zi x =? 0.
+
+Definition take_obs (prev : obs) (l : list int) : obs * list int :=
+  match l with
+  | t :: r =>
+    let tz := zi t in
+    if tz =? 0 then (OSyn, r)
+    else if tz =? 1 then (ONonNum, r)
+    else if tz =? 3 then
+      match r with
+      | sg :: k :: r1 => let '(v, r2) := take_limbs (Z.to_nat (zi k)) r1 in
+                         (ONum (NInt (if is0 sg then v else - v)), r2)
+      | _ => (OOther, [])
+      end
+    else if tz =? 4 then
+      match r with
+      | sg :: b :: r1 => (ONum (NFlt (negb (is0 sg)) (zi b)), r1)
+      | _ => (OOther, [])
+      end
+    else if tz =? 5 then (prev, r)
+    else (OOther, r)
+  | [] => (OOther, [])
+  end.
+
+Definition chkp (l : list int) : bool :=
+  let '(s, r0) := take_spelling l in
+  let '(o1, r1) := take_obs OOther r0 in
+  let '(o2, r2) := take_obs o1 r1 in
+  let '(o3, r3) := take_obs o2 r2 in
+  let '(o4, r4) := take_obs o3 r3 in
+  is_nil r4 && chk s o1 o2 o3 o4.
+
+(* the conjuncts of chkp separately (diagnosis of a failing case): 0,1 number_codes/number_chars vs model,
+   2,3 the two reader texts vs model, 4 agreement of the entry points *)
+Definition diagp (k : int) (l : list int) : bool :=
+  let '(s, r0) := take_spelling l in
+  let '(o1, r1) := take_obs OOther r0 in
+  let '(o2, r2) := take_obs o1 r1 in
+  let '(o3, r3) := take_obs o2 r2 in
+  let '(o4, r4) := take_obs o3 r3 in
+  let kz := zi k in
+  if kz =? 0 then nc_ok (number_chars_model s) o1
+  else if kz =? 1 then nc_ok (number_chars_model s) o2
+  else if kz =? 2 then rd_ok (read_model (s ++ [32%N; 46%N])) o3
+  else if kz =? 3 then rd_ok (read_model (s ++ [46%N])) o4
+  else agree s.
+
+(* printed text + the number it was printed from *)
+Definition textp (l : list int) : bool :=
+  let '(s, r0) := take_spelling l in
+  match take_obs OOther r0 with
+  | (ONum (NFlt neg b), []) => float_text_ok s neg b
+  | (ONum (NInt z), []) => int_text_ok s z
+  | _ => false
+  end.
